@@ -287,6 +287,31 @@ def replaceConn (g : G) (r : RepArgs) (pre : Bool) : G × RepOut :=
       else (g1, .badObs)
     | (g1, _) => (g1, .connErr)
 
+/-! ## the other places that ASSIGN connection lists
+
+* `topology._set_new_run_connections_with_fallback_recovery` (every `run` of an automated workflow, every
+  `pull`): saves the lists of the `ran` / `run` / `accumulate_and_run` channels of the given nodes and of their
+  partners, disconnects those channels, lets the wiring function connect; when deriving the flow fails
+  (cycle, upstream outside) it assigns the saved lists back.
+* `Composite._restore_firing_order` (unpickling, merge-back from a by-value executor): after re-connecting
+  from label tuples each output signal's list is assigned a permutation of itself.
+-/
+
+def savedOf (g : G) (cut : List Nat) : List (Nat × List Nat) :=
+  (cut.flatMap fun c => c :: g.conns c).map fun c => (c, g.conns c)
+
+def restoreSaved (g : G) (saved : List (Nat × List Nat)) : G := saved.foldl (fun g p => setConns g p.1 p.2) g
+
+/-- cut, and — if the flow cannot be derived — put the saved lists back (nothing has been wired yet: the
+sort comes first, signal connections cannot be refused) -/
+def dagAttempt (g : G) (cut : List Nat) (fail : Bool) : G :=
+  let g1 := disconnectChans g cut
+  if fail then restoreSaved g1 (savedOf g cut) else g1
+
+/-- `out.connections = saved ∩ current ++ current \ saved`: accepted iff a permutation of what is there -/
+def reorder (g : G) (c : Nat) (l : List Nat) : G × Bool :=
+  if l.isPerm (g.conns c) then (setConns g c l, true) else (g, false)
+
 /-! ## the alphabet of the current tree -/
 
 inductive Op
@@ -299,6 +324,10 @@ inductive Op
   | copyIo (failHard : Bool) (pairs : List (Option Nat × Nat))
   /-- `replace_child` -/
   | replace (r : RepArgs) (pre : Bool)
+  /-- flow derivation of `run` / `pull`: cut, on failure restore by assignment (the wiring itself is `connect`) -/
+  | dagAttempt (cut : List Nat) (fail : Bool)
+  /-- `_restore_firing_order` -/
+  | reorder (c : Nat) (l : List Nat)
   deriving Repr
 
 def step (g : G) : Op → G × Res
@@ -309,6 +338,8 @@ def step (g : G) : Op → G × Res
   | .copyConns a b => copyConnsN g a b
   | .copyIo fh ps => copyIoN g fh ps
   | .replace r pre => ((replaceConn g r pre).1, if (replaceConn g r pre).2 = .ok then .ok else .connErr)
+  | .dagAttempt cut fail => (dagAttempt g cut fail, .ok)
+  | .reorder c l => ((reorder g c l).1, .ok)
 
 def run (g : G) (ops : List Op) : G := ops.foldl (fun g o => (step g o).1) g
 
